@@ -531,7 +531,7 @@ def check_round_protocol(ck, P, rid):
     # closed colour: every per-colour counter the node automaton touches is indexed with the colour that has just been closed
     k = 0
     for x in g.walk():
-        if x.k != "ArraySubscriptExpr":
+        if x.k != "ArraySubscriptExpr" or Q.unevaluated(x):
             continue
         base = X.strip(x.children[0])
         if base.k == "DeclRefExpr" and base.name in ("remote_msg_seq", "last_seq", "remote_msg_received"):
